@@ -25,7 +25,7 @@ ASSUMPTIONS = ["the map is not modified during the traversal (the property's own
 DBMAP = "abyssiniandb::DbMap"
 WRAPPERS = ["DbXxxIter", "DbXxxIntoIter", "DbXxxKeys", "DbXxxValues"]
 DBX = "abyssiniandb::filedb::inner::dbxxx::"
-COUNTER = "DbXxxIterMut.remaining_item_count"
+from .fields import fname, fq
 
 
 def _check_own(ctx):
@@ -93,6 +93,7 @@ def check_one_iterator(ctx, prog, R):
 
 
 def check_counter(ctx, prog, R):
+    COUNTER = fq(prog, "ITER.counter")
     new, nxt = R.need("ITER_NEW"), R.need("ITER_NEXT")
     ctx.touch(new)
     ctx.touch(nxt, len(nxt.blocks))
@@ -102,9 +103,9 @@ def check_counter(ctx, prog, R):
         for s in blk["stmts"]:
             if s["s"] == "assign" and s["rhs"]["rv"] == "agg" and s["rhs"].get("adt") == ITERMUT:
                 flds = s["rhs"]["fields"]
-                o = origins(prog, new, s["rhs"]["ops"][flds.index("remaining_item_count")], at=b)
+                o = origins(prog, new, s["rhs"]["ops"][flds.index(fname(prog, "ITER.counter"))], at=b)
                 init_ok = bool(o) and all(is_call_to(prog, new, x, R.need("CNT_READ")) and x.proj[:1] == ("?ok",) for x in o)
-                bs = origins(prog, new, s["rhs"]["ops"][flds.index("buckets_size")], at=b)
+                bs = origins(prog, new, s["rhs"]["ops"][flds.index(fname(prog, "ITER.table_size"))], at=b)
                 ctx.check(bool(bs) and all(is_call_to(prog, new, x, R.need("HT_SIZE_READ_W")) for x in bs), "size-hint-exact", "table-size-from-header",
                           "the iterator's table size does not come from the stored header field", where=where(new, b))
     ctx.check(init_ok, "size-hint-exact", "init-from-stored-count", "the iterator's remaining counter is not initialised from the stored item count", where=where(new))
@@ -162,6 +163,19 @@ def check_counter(ctx, prog, R):
     if core_next:
         f = core_next[0]
         ctx.touch(f)
+        # one step per next(); every offset the step produces is yielded (the step has already counted it)
+        steps = calls_to(prog, f, target_fn=nxt)
+        ok_step = len(steps) == 1 and not in_cycle(f, steps[0][0])
+        ctx.check(ok_step, "item-at-scanned-offset", "one-step-per-next", "next() does not call the scan step exactly once, outside any loop (an offset produced by the step can be skipped)", where=where(f))
+        if len(steps) == 1:
+            from .util import enum_switches
+            sws = [sw for sw in enum_switches(prog, f) if sw["src"] and all(is_call_to(prog, f, x, nxt) and not x.proj for x in sw["src"])]
+            good = len(sws) == 1
+            if good:
+                some_e = sws[0]["targets"].get(1)
+                nones_ = [b for b, s_ in ret_agg_blocks(f, "core::option::Option", "None")]
+                good = some_e is not None and not any(nb in f.reachable(some_e) for nb in nones_) and steps[0][0] not in f.reachable(some_e)
+            ctx.check(good, "item-at-scanned-offset", "some-step-yields", "after the step produced an offset, next() can return None or step again: a live entry is dropped and the size hint runs ahead", where=where(f))
         for role, nm in (("LOAD_KEY", "key"), ("LOAD_VALUE", "value")):
             sites = calls_to(prog, f, target_fn=R.need(role))
             ok = len(sites) == 1
@@ -192,7 +206,10 @@ def _state_sources(prog, fn, op, at, R):
     scan, nat = R.need("SCAN"), R.need("NEXT_AT")
     for o in origins(prog, fn, op, at=at):
         if o.kind == "param" and o.data == 1 and o.proj and o.proj[-1].startswith("f:DbXxxIterMut."):
-            out.add("field:" + o.proj[-1].split(".")[-1])
+            nm_ = o.proj[-1].split(".")[-1]
+            canon_ = {fname(prog, "ITER.key_offset"): "key_offset", fname(prog, "ITER.index"): "buckets_idx",
+                      fname(prog, "ITER.table_size"): "buckets_size", fname(prog, "ITER.counter"): "remaining_item_count"}
+            out.add("field:" + canon_.get(nm_, nm_))
         elif o.kind == "call" and is_call_to(prog, fn, o, scan):
             out.add("scan" + "".join("." + p_[2:] for p_ in o.proj if p_.startswith("f:")))
         elif o.kind == "call" and is_call_to(prog, fn, o, nat):
@@ -214,9 +231,10 @@ def check_scan_state(ctx, prog, R):
     allowed = {"DbXxxIterMut.key_offset": {"field:key_offset", "chain-next", "scan.1"},
                "DbXxxIterMut.buckets_idx": {"field:buckets_idx", "scan.0"}}
     need = {"DbXxxIterMut.key_offset": {"chain-next", "scan.1"}, "DbXxxIterMut.buckets_idx": {"scan.0"}}
+    actual = {"DbXxxIterMut.key_offset": fq(prog, "ITER.key_offset"), "DbXxxIterMut.buckets_idx": fq(prog, "ITER.index")}
     for fld, ok_set in allowed.items():
         seen = set()
-        sts = [(f, b, s_) for f, b, s_ in field_stores(prog, fld) if f.id != new.id]
+        sts = [(f, b, s_) for f, b, s_ in field_stores(prog, actual[fld]) if f.id != new.id]
         ctx.check(all(f.id == nxt.id for f, b, s_ in sts) and sts, rule, fld.split(".")[-1] + ":writers",
                   "the iterator field %s is stored outside the constructor and the scan step (%s)" % (fld, sorted({short(f.id) for f, b, s_ in sts})))
         for f, b, s_ in sts:
@@ -244,8 +262,8 @@ def check_scan_state(ctx, prog, R):
         for s_ in blk["stmts"]:
             if s_["s"] == "assign" and s_["rhs"]["rv"] == "agg" and s_["rhs"].get("adt") == ITERMUT:
                 flds = s_["rhs"]["fields"]
-                for fld in ("buckets_idx", "key_offset"):
-                    o = leaf_origins(prog, new, s_["rhs"]["ops"][flds.index(fld)], at=b, terminal_only=True)
+                for fld, frole in (("buckets_idx", "ITER.index"), ("key_offset", "ITER.key_offset")):
+                    o = leaf_origins(prog, new, s_["rhs"]["ops"][flds.index(fname(prog, frole))], at=b, terminal_only=True)
                     zero = bool(o) and all((x.kind == "const" and x.data == 0) or
                                            (x.kind == "call" and x.data.get("args") and const_val(x.data["args"][0]) == 0 and (x.data.get("callee") or "").endswith("::new")) for x in o)
                     ctx.check(zero, rule, "init:" + fld, "a new iterator does not start with %s = 0" % fld, where=where(new, b))
